@@ -111,3 +111,9 @@ func (c *QuicClient) VerifRawRead(n int) ([]byte, error) {
 func (t *QuicRelayer) VerifListenAddr() string {
 	return t.listener.Addr().String()
 }
+
+// VerifLocalAddr is the local address of the connection (the accepting side sees it as
+// RemoteAddr), used to pair the two ends of a loopback connection.
+func (c *QuicClient) VerifLocalAddr() string {
+	return c.session.LocalAddr().String()
+}
